@@ -186,6 +186,45 @@ struct CountingRange
     CountingIt<S> end() const { return {n, derefs}; }
 };
 
+// a genuinely single-pass range (like std::istream_iterator): the position is shared state of the range, advancing any
+// iterator consumes an item for all of them, begin() continues where the stream is
+template <class S>
+struct StreamIt
+{
+    using iterator_category = std::input_iterator_tag;
+    using value_type = S;
+    using difference_type = std::ptrdiff_t;
+    using pointer = const S*;
+    using reference = S;
+    int* pos = nullptr;
+    int limit = 0;
+    bool is_end = false;
+    int* derefs = nullptr;
+    S operator*() const
+    {
+        if (derefs) ++*derefs;
+        return make_s<S>(RAW[*pos % 4]);
+    }
+    StreamIt& operator++()
+    {
+        ++*pos;
+        return *this;
+    }
+    void operator++(int) { ++*pos; }
+    bool at_end() const { return is_end || *pos >= limit; }
+    bool operator==(const StreamIt& o) const { return at_end() == o.at_end(); }
+    bool operator!=(const StreamIt& o) const { return at_end() != o.at_end(); }
+};
+template <class S>
+struct StreamRange
+{
+    int n;
+    int* pos;
+    int* derefs;
+    StreamIt<S> begin() const { return {pos, n, false, derefs}; }
+    StreamIt<S> end() const { return {pos, n, true, derefs}; }
+};
+
 template <class T>
 using Opt = cntgs::Options<cntgs::Allocator<Ledger<std::byte, Tr<false, false, false, true, false>>>>;
 template <class T>
@@ -441,6 +480,26 @@ static void forms_for_length()
             auto tmp = make_vec<S>(N);
             std::list<S> s(std::make_move_iterator(tmp.begin()), std::make_move_iterator(tmp.end()));
             cell<T, S, Varying>("std::list&&", N, [&](auto& v) { emp(v, std::move(s)); }, POST_MOVED, [&] { check_moved<S>(s, "list"); });
+        }
+        {
+            int derefs = 0, pos = 0;
+            StreamRange<S> stream{N, &pos, &derefs};
+            cell<T, S, Varying>("stream range (shared position, no size())", N, [&](auto& v) { emp(v, stream); }, POST_NONE,
+                                [&]
+                                {
+                                    if (derefs != N || pos != N)
+                                        report("C15", "emplace", "stream-range:consumed", "a single-pass range of %d items was dereferenced %d times and advanced %d times", N, derefs, pos);
+                                });
+        }
+        {
+            int derefs = 0, pos = 0;
+            StreamRange<S> stream{N, &pos, &derefs};
+            cell<T, S, Varying>("rvalue stream range", N, [&](auto& v) { emp(v, std::move(stream)); }, POST_NONE,
+                                [&]
+                                {
+                                    if (derefs != N || pos != N)
+                                        report("C15", "emplace", "stream-range:consumed", "a single-pass rvalue range of %d items was dereferenced %d times and advanced %d times", N, derefs, pos);
+                                });
         }
         {
             int derefs = 0;
